@@ -65,6 +65,9 @@ def _same(H, parsed, m):
     )
 
 
+_APP = None
+
+
 def check_message(H, m, suffix, ctx):
     """the per-message oracle; returns True when it held"""
     ok = True
@@ -117,6 +120,26 @@ def check_message(H, m, suffix, ctx):
         ctx.violation("message-derived-from-a-decoded-one-encodes-wrongly",
                       dict(msg=dict(m, payload=m["payload"][:32]), new_payload_len=len(other),
                            got=derived[:24] if isinstance(derived, bytes) else derived, reference=want[:24]),
+                      dict(kind="msg", msg=m, suffix=suffix))
+        ok = False
+    # an application may decode through its own subclass of the message class (helper properties on top of the wire fields):
+    # the decoder builds what it was asked for
+    global _APP
+    if _APP is None:
+        class AppMessage(H.SOMEIPHeader):
+            @property
+            def request_id(self):
+                return (self.client_id << 16) | self.session_id
+
+        _APP = AppMessage
+    try:
+        sub, srest = _APP.parse(bytes(built) + suffix)
+        sub_ok = type(sub) is _APP and _same(H, sub, m) and bytes(srest) == suffix and sub.request_id == (m["cid"] << 16) | m["sess"]
+    except Exception as exc:  # noqa: B902
+        sub_ok = repr(exc)
+    ctx.count("decoded_through_a_subclass")
+    if sub_ok is not True:
+        ctx.violation("decoding-through-a-subclass-returns-something-else", dict(msg=dict(m, payload=m["payload"][:32]), result=sub_ok),
                       dict(kind="msg", msg=m, suffix=suffix))
         ok = False
     # the reference decoder must read the library's bytes the same way
